@@ -237,6 +237,19 @@ func checkC11(c *Ctx, r *Report) {
 					}
 				}
 			}
+			if verdict == "" {
+				// the function only opens the file and hands it on, with both names, in a small
+				// record; fill / publish / discard are other functions of the package (ip_j5.go)
+				if handled, v, w, tempV, roots := ipi.j5RecordWriter(fn, ci, pathArg, file); handled {
+					verdict, why = v, w
+					if v != "" {
+						pathArg = tempV
+						for _, root := range roots {
+							atomicHelpers[root] = true
+						}
+					}
+				}
+			}
 			if verdict != "" {
 				o.OK("%s", verdict)
 				// C11-temp: the temporary name cannot be picked up by the loader
@@ -334,6 +347,9 @@ func tempRule(c *Ctx, r *Report, fn *ssa.Function, ci ssa.CallInstruction, pathA
 	}
 	if s, ok := constString(pat); ok && strings.HasPrefix(s, ".") {
 		o.OK("the temporary file name begins with the constant %q", s)
+	} else if pathArg != nil && newIPI1(c, "mailbox").j5DottedName(pathArg, nil, 0) {
+		// the name is computed by a function of the package (ip_j5.go)
+		o.OK("the temporary name is a join whose last element begins with a dot on every return of the function that computes it")
 	} else {
 		o.Bad("the temporary file name is not established to begin with a dot: a file left by a crash would be loaded as a message")
 	}
@@ -534,7 +550,7 @@ func checkC10(c *Ctx, r *Report) {
 				if !strings.HasSuffix(pathOf(x.Addr), ".deferred") {
 					return
 				}
-				_, fresh := x.Val.(*ssa.MakeMap)
+				fresh := j5FreshMap(x.Val, pkg, 0)
 				okFn := strings.HasSuffix(fnName(fn), ".Prepare") || strings.HasSuffix(fnName(fn), "mailbox.NewDirHandler")
 				if strings.HasSuffix(fnName(fn), ".SetDeferred") && fresh {
 					// lazy creation: only where the set is missing
@@ -562,6 +578,28 @@ func checkC10(c *Ctx, r *Report) {
 				okFn := strings.HasSuffix(fnName(fn), ".SetDeferred")
 				r.Check("C10-session", fnName(fn), "update of DirHandler.deferred", c.pos(in.Pos()), okFn,
 					"only SetDeferred adds to the deferral set", "the deferral set is modified outside SetDeferred")
+			case ssa.CallInstruction:
+				// the set handed to a function of the package (a method of a small set type): what
+				// that function does with it counts as done here (ip_j5.go)
+				ip := newIPG2(c, pkg)
+				callee, k, isSet := ip.j5SetCall(x, ".deferred")
+				if !isSet {
+					return
+				}
+				if !ip.local(callee) {
+					return // library code (len, fmt, ...): as before, not a writer the rule knows
+				}
+				eff := ip.j5MapEffect(callee, k, 0)
+				switch {
+				case eff.unknown != "":
+					r.Add("C10-session", fnName(fn), "update of DirHandler.deferred", c.pos(in.Pos())).Bad("the deferral set is handed to %s and what happens to it there cannot be decided (%s)", fnName(callee), eff.unknown)
+				case eff.deletes:
+					r.Add("C10-session", fnName(fn), "update of DirHandler.deferred", c.pos(in.Pos())).Bad("%s removes entries from the deferral set: a deferral lasts until the next Prepare", fnName(callee))
+				case len(eff.updates) > 0:
+					okFn := strings.HasSuffix(fnName(fn), ".SetDeferred")
+					r.Check("C10-session", fnName(fn), "update of DirHandler.deferred", c.pos(in.Pos()), okFn,
+						"only SetDeferred adds to the deferral set", "the deferral set is modified outside SetDeferred")
+				}
 			}
 		})
 	}
@@ -572,7 +610,7 @@ func checkC10(c *Ctx, r *Report) {
 		if fn := c.Func(pkg, "NewDirHandler"); fn != nil {
 			eachInstr(fn, func(_ *ssa.BasicBlock, _ int, in ssa.Instruction) {
 				if st, ok := in.(*ssa.Store); ok && strings.HasSuffix(pathOf(st.Addr), ".deferred") {
-					if _, fresh := st.Val.(*ssa.MakeMap); fresh {
+					if fresh := j5FreshMap(st.Val, pkg, 0); fresh {
 						all := true
 						for _, ret := range returnsOf(fn) {
 							if !instrDominates(in, ret) {
@@ -595,7 +633,7 @@ func checkC10(c *Ctx, r *Report) {
 				// store in the same function under `== nil`, or an unconditional one)
 				eachInstr(fn, func(_ *ssa.BasicBlock, _ int, in2 ssa.Instruction) {
 					if st, ok := in2.(*ssa.Store); ok && strings.HasSuffix(pathOf(st.Addr), ".deferred") {
-						if _, fresh := st.Val.(*ssa.MakeMap); fresh && instrReaches(st, in) {
+						if fresh := j5FreshMap(st.Val, pkg, 0); fresh && instrReaches(st, in) {
 							guarded = true
 						}
 					}
@@ -603,6 +641,24 @@ func checkC10(c *Ctx, r *Report) {
 				r.Check("C10-session", fnName(fn), "deferral set exists when updated", c.pos(in.Pos()), ctorInit || guarded,
 					"the constructor creates the map (or SetDeferred creates it when missing)", "SetDeferred updates a map that only Prepare creates: marking a message deferred on a handler that has not started a session yet panics (assignment to entry in nil map)")
 			})
+			// the update made by a function of the package the set is handed to (ip_j5.go)
+			ip := newIPG2(c, pkg)
+			for _, ci := range allCalls(fn) {
+				callee, k, isSet := ip.j5SetCall(ci, ".deferred")
+				if !isSet || !ip.local(callee) || len(ip.j5MapEffect(callee, k, 0).updates) == 0 {
+					continue
+				}
+				guarded := false
+				eachInstr(fn, func(_ *ssa.BasicBlock, _ int, in2 ssa.Instruction) {
+					if st, ok := in2.(*ssa.Store); ok && strings.HasSuffix(pathOf(st.Addr), ".deferred") {
+						if fresh := j5FreshMap(st.Val, pkg, 0); fresh && instrReaches(st, ci) {
+							guarded = true
+						}
+					}
+				})
+				r.Check("C10-session", fnName(fn), "deferral set exists when updated", c.pos(ci.Pos()), ctorInit || guarded,
+					"the constructor creates the map (or SetDeferred creates it when missing)", "SetDeferred updates a map that only Prepare creates: marking a message deferred on a handler that has not started a session yet panics (assignment to entry in nil map)")
+			}
 		}
 	}
 
@@ -617,8 +673,13 @@ func checkC10(c *Ctx, r *Report) {
 				}
 			}
 		})
+		okText := "deferred[MID] = true"
+		if !adds && newIPG2(c, pkg).j5AddsKey(fn, ".deferred", fn.Params[1]) {
+			// the set and the MID are handed to a function of the package that always adds the key
+			adds, okText = true, "the MID is added to the deferral set by a function of the package, on every path"
+		}
 		r.Check("C10-session", fnName(fn), "SetDeferred records the MID", c.pos(fn.Pos()), adds,
-			"deferred[MID] = true", "SetDeferred no longer records the MID it is given")
+			okText, "SetDeferred no longer records the MID it is given")
 	}
 
 	// ---- C10-sole: the sole-recipient test counts every recipient (To and Cc)
@@ -879,6 +940,9 @@ func checkC12(c *Ctx, r *Report) {
 		}
 		vp := pathOf(v)
 		for _, cd := range condsAt(use.Block()) {
+			if j5SepAbsent(cd.V, cd.Truth, func(x ssa.Value) bool { return vp != "" && pathOf(x) == vp }, needBackslash) {
+				return true // inline search with a character predicate / index form (ip_j5.go)
+			}
 			call, ok := cd.V.(*ssa.Call)
 			if !ok {
 				continue
@@ -1220,7 +1284,7 @@ func prepareResetRule(c *Ctx, r *Report, rule string) {
 			if !ok || !strings.HasSuffix(pathOf(st.Addr), ".deferred") {
 				return
 			}
-			if _, fresh := st.Val.(*ssa.MakeMap); !fresh {
+			if fresh := j5FreshMap(st.Val, pkg, 0); !fresh {
 				return
 			}
 			all := true
